@@ -16,6 +16,8 @@ def dispatch (cmd : String) (args : List String) : Option String :=
   | "spec" => Driver.handleSpec args
   | "tidy" => Driver.handleTidy args
   | "pspec" => Driver.handlePSpec args
+  | "cert" => Driver.handleCert args
+  | "caps" => Driver.handleCaps args
   | "ping" => some "pong"
   | _ =>
     match Driver.Lists.handlers.lookup cmd with
